@@ -50,7 +50,11 @@ pub fn gen_case(rng: &mut Rng, _thorough: bool, case: u64) -> J {
     if immediate { let n = 300 + rng.below(900) as usize; crits = vec![(json!({"numEval": n}), TerminationCriterion::NumObjFuncEval(n))]; }
     let n1 = if immediate { match crits[0].1 { TerminationCriterion::NumObjFuncEval(n) => n, _ => n1 } } else { n1 };
     let want_live = nc.min(n1);
-    let fail_at = if !barrier && rng.chance(1, 4) { Some(rng.below(n1 as u64 + 5) as usize) } else { None };
+    // stalled report sink: the detailed report file is a FIFO that nobody reads until the whole budget has been started
+    // (think of an output directory on a slow share).  The budget is far below the report channel's capacity, so the
+    // optimisation must not care: finished evaluations are replaced all the same.
+    let stalled = !barrier && !zero_budget && !immediate && crits.len() == 1 && rng.chance(1, 4);
+    let fail_at = if !barrier && !stalled && rng.chance(1, 4) { Some(rng.below(n1 as u64 + 5) as usize) } else { None };
     let rej_permille = *rng.pick(&[0u64, 0, 200]);
     let calls = Arc::new(AtomicUsize::new(0));
     let live = Arc::new(AtomicUsize::new(0));
@@ -77,6 +81,18 @@ pub fn gen_case(rng: &mut Rng, _thorough: bool, case: u64) -> J {
     let _ = std::fs::remove_dir_all(&dir);
     std::fs::create_dir_all(&dir).unwrap();
     let info = DetailedReportingFileInfo { detailed_report_file_path: dir.join("report.csv"), best_seen_file_path: dir.join("best.json") };
+    let reader = if stalled {
+        nix::unistd::mkfifo(&dir.join("report.csv"), nix::sys::stat::Mode::from_bits_truncate(0o600)).unwrap();
+        let (calls, path) = (calls.clone(), dir.join("report.csv"));
+        Some(std::thread::spawn(move || {
+            let t0 = std::time::Instant::now();
+            while calls.load(Ordering::SeqCst) < n1 && t0.elapsed() < Duration::from_secs(8) { std::thread::sleep(Duration::from_millis(2)); }
+            let started = calls.load(Ordering::SeqCst);
+            let mut content = String::new();
+            if let Ok(mut f) = std::fs::File::open(&path) { let _ = std::io::Read::read_to_string(&mut f, &mut content); }
+            (started, content)
+        }))
+    } else { None };
     let spec = spec_util::from_yaml_str(SPEC).unwrap();
     let cfg = AlgoConfigBuilder::new().num_concurrent(nc).build().unwrap();
     let res = if immediate {
@@ -94,7 +110,10 @@ pub fn gen_case(rng: &mut Rng, _thorough: bool, case: u64) -> J {
     } else {
         sync_launch::launch(spec, obj, cfg, crits.iter().map(|c| c.1.clone()).collect::<Vec<_>>(), None, threaded, Some(&info))
     };
-    let csv = std::fs::read_to_string(dir.join("report.csv")).unwrap_or_default();
+    let (stalled_started, csv) = match reader {
+        Some(h) => { let (k, c) = h.join().unwrap(); (Some(k), c) }
+        None => (None, std::fs::read_to_string(dir.join("report.csv")).unwrap_or_default()),
+    };
     let rows: Vec<&str> = csv.lines().skip(1).collect();
     let row_objs: Vec<J> = rows.iter().map(|r| { let last = r.rsplit(';').next().unwrap_or(""); if last.is_empty() { J::Null } else { last.parse::<f64>().map(|x| json!(order_code(x))).unwrap_or(json!("unparsable")) } }).collect();
     let row_inputs: Vec<String> = rows.iter().map(|r| { let f: Vec<&str> = r.split(';').collect(); if f.len() >= 10 { canon(&serde_json::from_str::<J>(&f[7..f.len() - 2].join(";")).unwrap_or(J::Null)) } else { String::new() } }).collect();
@@ -118,5 +137,5 @@ pub fn gen_case(rng: &mut Rng, _thorough: bool, case: u64) -> J {
     };
     json!({"mode": "run", "criteria": crits.iter().map(|c| c.0.clone()).collect::<Vec<_>>(), "nc": nc, "threaded": threaded, "barrier": barrier, "immediate": immediate, "tiny": scale != 1.0, "failAt": fail_at,
            "calls": calls.load(Ordering::SeqCst), "maxLive": max_live.load(Ordering::SeqCst), "ret": ret,
-           "csvRows": rows.len(), "rowObjs": row_objs, "rowInputs": row_inputs, "bestFile": best_file, "bestLate": best_late})
+           "csvRows": rows.len(), "rowObjs": row_objs, "rowInputs": row_inputs, "bestFile": best_file, "bestLate": best_late, "stalledStarted": stalled_started})
 }
